@@ -234,7 +234,7 @@ func TestC11(t *testing.T) {
 	enum("enum-unary", gen.UnaryAlphabet(), focusLen+map[bool]int{false: 0, true: 1}[cfg.Thorough()])
 
 	// size sweep: the same shape at every size (limits, thresholds, off-by-one)
-	maxN := 150
+	maxN := 640
 	if cfg.Thorough() {
 		maxN = 1200
 	}
